@@ -170,6 +170,12 @@ func c20Build(sym, deep bool, maxShape int, varyMeta bool) *c20World {
 		}
 		w.posts = append(w.posts, ps)
 		txt := inc + "2024-01-0" + zzverif.Itoa(i+1) + " " + payee + " ; " + tag + "\n"
+		// the amount-less balancing posting comes last, or (in the file with the extra posting)
+		// first: postings with amounts then FOLLOW a posting without one
+		zFirst := !varyMeta && i == w.extraFile && zzverif.Choice("zfirst", 2) == 1
+		if zFirst {
+			txt += "    z:z\n"
+		}
 		for _, p := range ps {
 			txt += "    " + p.acct
 			if p.hasAmt {
@@ -177,7 +183,9 @@ func c20Build(sym, deep bool, maxShape int, varyMeta bool) *c20World {
 			}
 			txt += "\n"
 		}
-		txt += "    z:z\n"
+		if !zFirst {
+			txt += "    z:z\n"
+		}
 		w.contents = append(w.contents, txt)
 	}
 	return w
@@ -333,12 +341,7 @@ func verifC20Hover(deep bool) {
 	second := zzverif.Choice("second", 2) == 1
 	s, uri := w.serve(req, workspace, second)
 	// cursor on the first posting's account of the requesting file
-	line := uint32(1)
-	for _, l := range c20Lines(w.contents[req]) {
-		if c20HasPrefix(l, "include ") {
-			line++
-		}
-	}
+	line := c20AcctLine(w.contents[req])
 	h, err := s.Hover(context.Background(), &protocol.HoverParams{TextDocumentPositionParams: protocol.TextDocumentPositionParams{
 		TextDocument: protocol.TextDocumentIdentifier{URI: uri}, Position: protocol.Position{Line: line, Character: 5}}})
 	zzverif.Assert(err == nil && h != nil, "hover on an account occurrence answers")
@@ -535,4 +538,14 @@ func VerifC20Counts() {
 		}
 		zzverif.Reach("C20.counts.amount")
 	}
+}
+
+// c20AcctLine: the first posting line that names the hovered account a:b.
+func c20AcctLine(content string) uint32 {
+	for i, l := range c20Lines(content) {
+		if c20HasPrefix(l, "    a:b") {
+			return uint32(i)
+		}
+	}
+	return 0
 }
